@@ -24,6 +24,8 @@ pub const K_NULLSP: u8 = 3;
 pub const K_EXITER: u8 = 4;
 /// a thread that opens and closes descriptors in a loop
 pub const K_FDCHURN: u8 = 5;
+/// spins in user space with an arbitrary (spec-given) value in rsp
+pub const K_ODDSP: u8 = 6;
 
 pub fn pat(a: u64, seed: u64) -> u8 {
     let mut x = (a ^ seed).wrapping_mul(0x9E37_79B9_7F4A_7C15);
@@ -440,7 +442,7 @@ impl Target {
                     K_PARKED => blocked_in(tid, "34 "),
                     K_SPINNER => self.read_u64(t.aux).map(|v| v > t.regs[12]).unwrap_or(false),
                     K_EXITER => blocked_in(tid, "0 "),
-                    K_NULLSP => std::fs::read_to_string(format!("/proc/{}/task/{}/syscall", self.pid, tid)).map(|s| s.starts_with("running")).unwrap_or(false),
+                    K_NULLSP | K_ODDSP => std::fs::read_to_string(format!("/proc/{}/task/{}/syscall", self.pid, tid)).map(|s| s.starts_with("running")).unwrap_or(false),
                     _ => true,
                 };
                 if ok {
